@@ -26,6 +26,10 @@ HEALTHY = {
     'openssh-fallback': dict(marker=True, rsa=4096, ca=4096, gex=[3072], style='openssh', banner='SSH-2.0-OpenSSH_8.9p1'),
     'unknown-names':   dict(marker=True, rsa=4096, ca=4096, gex=[4096], style='strict', banner='SSH-2.0-dropbear_2022.83', extra=True),
     'no-probes':       dict(marker=False, rsa=4096, ca=4096, gex=None, style='strict', banner='SSH-2.0-libssh_0.9.6', noprobe=True),
+    # same lists again under the same products at other versions: whatever a scan remembers per product/version must not carry over to the next target
+    'openssh-old':     dict(marker=True, rsa=4096, ca=4096, gex=[4096], style='strict', banner='SSH-2.0-OpenSSH_6.6'),
+    'openssh-new':     dict(marker=True, rsa=4096, ca=4096, gex=[4096], style='strict', banner='SSH-2.0-OpenSSH_10.0'),
+    'dropbear-old':    dict(marker=True, rsa=4096, ca=4096, gex=[4096], style='strict', banner='SSH-2.0-dropbear_2013.58'),
     'ssh1':            dict(ssh1=True),
 }
 
